@@ -196,7 +196,7 @@ def st_output_case(draw):
 
 class Output(Sub):
     name = "output"
-    examples = {"quick": 500, "thorough": 10000}
+    examples = {"quick": 500, "thorough": 4000}
     shards = {"quick": 8, "thorough": 16}
     rule = ("3 connections (one authenticated as a privileged key when auth is on) x generated EVENT/REQ sequences x "
             "output validator family; non-trivial = a hidden event was accepted while a subscription matching it was open "
@@ -272,7 +272,7 @@ class Output(Sub):
 
 class Roles(Sub):
     name = "roles"
-    examples = {"quick": 300, "thorough": 6000}
+    examples = {"quick": 300, "thorough": 2400}
     shards = {"quick": 6, "thorough": 12}
     rule = "sequences of set/get/get_all over 3 pubkeys and role strings (mixed case, empty, duplicates); non-trivial = a pubkey is set at least twice"
 
